@@ -27,4 +27,18 @@ Fixpoint concat_maps_v0 (fuel : nat) (ms : list (list (string * cval))) : res (l
 Definition concat_maps_top_v0 (ms : list (list (string * cval))) : res (list (string * cval)) :=
   concat_maps_v0 (S (dmaps ms)) ms.
 
+(* Finding F-C14b (/repo commit 509de21): ConcatItems[T] ended in cv.Interface().(T) also when cv was
+   the nil value of an INTERFACE chunk type T handed back by the concat function registered for T
+   (rendered: payload 0 of T's tag), and that type assertion panics.  [concat_stream_iface_v0] is
+   concatStreamReader[T] for such a T before the repair (a single chunk is returned unasserted). *)
+Definition concat_stream_iface_v0 (vs : list cval) : res cval :=
+  match vs with
+  | _ :: _ :: _ =>
+      match concat_stream vs with
+      | Ok (COther tag p) => if N.eqb p 0 then Panic else Ok (COther tag p)
+      | r => r
+      end
+  | _ => concat_stream vs
+  end.
+
 End User.
